@@ -39,7 +39,7 @@ META = dict(
         "below 1e-9 (|x| <= 5, moderate |loc|/scale)",
         "invgamma_prior with loc < 0 is generated rarely (its log-table cannot represent negative values)",
     ],
-    need=["quantile_points", "monotone_checks", "inverse_points", "jacobian_points", "moment_checks",
+    need=["quantile_points", "width_points", "monotone_checks", "inverse_points", "jacobian_points", "moment_checks",
           "property_checks", "re_pairs", "cl_pairs", "interp_pairs"],
     quick=dict(cases=1900, workers=6, budget_s=60),
     thorough=dict(cases=30000, workers=16, budget_s=700),
@@ -517,20 +517,22 @@ def b_cl_normal(S, rng, lognormal=False):
     ncop = G if rng.random() < 0.8 else 0
     arr = ncop and rng.random() < 0.4
     if lognormal:
-        mean = lu(rng, 1e-3, 1e3, G if arr else None)
-        sig = mean * lu(rng, 1e-2, 3.0, G if arr else None)
+        mean = lu(rng, 1e-6, 1e6, G if arr else None) if corner(rng) else lu(rng, 1e-3, 1e3, G if arr else None)
+        sig = mean * lu_ratio(rng, G if arr else None)
         ls = np.sqrt(np.log1p((sig / mean) ** 2))
         lm = np.log(mean) - 0.5 * ls ** 2
         op = ift.LognormalTransform(mean, sig, "k", ncop)
         dist = stats.lognorm(s=ls, scale=np.exp(lm))
         abs_scale = 0.0
+        stdz = stdz_lognormal(lm, ls)
     else:
         mean = np.round(rng.standard_normal(G if arr else None) * lu(rng, 1e-2, 1e2), 4)
         mean = mean if arr else float(mean)
-        sig = lu(rng, 1e-3, 1e3, G if arr else None)
+        sig = lu(rng, 1e-8, 1e8, G if arr else None) if corner(rng) else lu(rng, 1e-3, 1e3, G if arr else None)
         op = ift.NormalTransform(mean, sig, "k", ncop)
         dist = stats.norm(mean, sig)
         abs_scale = np.abs(mean)
+        stdz = stdz_normal(mean, sig)
 
     def fn(x):
         if ncop == 0:
@@ -539,9 +541,9 @@ def b_cl_normal(S, rng, lognormal=False):
         dom, f = cl_field(S, x)
         return op(ift.MultiField.from_dict({"k": f})).asnumpy()
     name = "LognormalTransform" if lognormal else "NormalTransform"
-    sp = dict(key="cl:" + name, fn=fn, dist=dist, mode="exact", abs_scale=abs_scale, default=False,
+    sp = dict(key="cl:" + name, fn=fn, dist=dist, mode="exact", abs_scale=abs_scale, default=False, stdz=stdz,
               desc=dict(t="cl:" + name, ncop=ncop, arr=bool(arr), mean=np.ravel(mean)[:2].tolist(),
-                        sig=np.ravel(sig)[:2].tolist()))
+                        sig=np.ravel(sig)[:2].tolist(), ratio=float(np.min(np.asarray(sig) / np.maximum(np.abs(mean), 1e-300)))))
     if lognormal:
         sp["moments"] = ("cl", mean, sig, ncop)
     return sp
@@ -560,10 +562,11 @@ def b_cl_invgamma(S, rng, log=False):
     qfield = False
     props = None
     if par == "alpha_q":
-        alpha = lu(rng, 0.5, 50.0)
-        q = lu(rng, 1e-3, 1e3)
+        cor = corner(rng)
+        alpha = lu(rng, 0.2, 200.0) if cor else lu(rng, 0.5, 50.0)
+        q = lu(rng, 1e-6, 1e6) if cor else lu(rng, 1e-3, 1e3)
         qfield = rng.random() < 0.3
-        qv = lu(rng, 1e-3, 1e3, G) if qfield else q
+        qv = (lu(rng, 1e-6, 1e6, G) if cor else lu(rng, 1e-3, 1e3, G)) if qfield else q
         if log:
             op = ift.LogInverseGammaOperator(dom, alpha, ift.makeField(dom, qv) if qfield else q, delta)
         else:
@@ -604,8 +607,9 @@ def b_cl_gamma(S, rng):
     dom = ift.UnstructuredDomain(G)
     delta = [1e-2, 1e-2, 2e-2, 5e-2][int(rng.integers(0, 4))]
     par = ["alpha_beta", "alpha_theta", "mean_var", "alpha_thetafield"][int(rng.integers(0, 4))]
-    alpha = lu(rng, 0.5, 50.0)
-    theta = lu(rng, 1e-3, 1e3)
+    cor = corner(rng)
+    alpha = lu(rng, 0.2, 200.0) if cor else lu(rng, 0.5, 50.0)
+    theta = lu(rng, 1e-6, 1e6) if cor else lu(rng, 1e-3, 1e3)
     thv = theta
     if par == "alpha_beta":
         beta = float(f"{1.0 / theta:.5g}")
@@ -641,7 +645,7 @@ def b_cl_beta(S, rng):
     ift = S["ift"]
     dom = ift.UnstructuredDomain(G)
     delta = [1e-2, 1e-2, 2e-2, 5e-2][int(rng.integers(0, 4))]
-    a, b = lu(rng, 0.5, 50.0), lu(rng, 0.5, 50.0)
+    a, b = (lu(rng, 0.2, 200.0), lu(rng, 0.2, 200.0)) if corner(rng) else (lu(rng, 0.5, 50.0), lu(rng, 0.5, 50.0))
     op = ift.BetaOperator(dom, a, b, delta)
     d0 = stats.beta(a, b)
     return dict(key="cl:BetaOperator", fn=lambda x: cl_apply(S, op, x), dist=d0, mode="viacdf", default=False,
@@ -655,14 +659,24 @@ def b_cl_uniform(S, rng):
     ift = S["ift"]
     dom = ift.UnstructuredDomain(G)
     default = rng.random() < 0.12
-    loc, scale = (0.0, 1.0) if default else (float(np.round(rng.standard_normal() * lu(rng, 1e-2, 1e2), 4)), lu(rng, 1e-3, 1e3))
+    special = (not default) and rng.random() < 0.3
+    if default:
+        loc, scale = 0.0, 1.0
+    elif special:          # width exactly 1 with offset, explicit (0, 1), negative ranges, int arguments
+        a, b = UNI_SPECIAL[int(rng.integers(0, len(UNI_SPECIAL)))]
+        loc, scale = a, b - a
+        if float(loc).is_integer() and float(scale).is_integer() and rng.random() < 0.4:
+            loc, scale = int(loc), int(scale)
+    else:
+        loc = float(np.round(rng.standard_normal() * lu(rng, 1e-2, 1e2), 4))
+        scale = lu(rng, 1e-6, 1e6) if corner(rng) else lu(rng, 1e-3, 1e3)
     op = ift.UniformOperator(dom) if default else ift.UniformOperator(dom, loc, scale)
     return dict(key="cl:UniformOperator", fn=lambda x: cl_apply(S, op, x), dist=stats.uniform(loc, scale),
-                mode="viacdf", abs_scale=abs(loc) + abs(scale), default=default,
+                mode="viacdf", abs_scale=abs(loc) + abs(scale), default=default, stdz=stdz_uniform(loc, loc + scale),
                 jac=lambda x: cl_jac(S, op, x),
                 inv=lambda y: op.inverse(cl_field(S, y)[1]).asnumpy(),
                 inv_cond=lambda x, y: 8 * EPS * (abs(loc) / scale + 1) / np.maximum(phi(x), 1e-300),
-                desc=dict(t="cl:UniformOperator", loc=loc, scale=scale))
+                desc=dict(t="cl:UniformOperator", loc=loc, scale=scale, special=bool(special)))
 
 
 def b_cl_laplace(S, rng):
@@ -670,7 +684,8 @@ def b_cl_laplace(S, rng):
     ift = S["ift"]
     dom = ift.UnstructuredDomain(G)
     default = rng.random() < 0.12
-    loc, scale = (0.0, 1.0) if default else (float(np.round(rng.standard_normal() * lu(rng, 1e-2, 1e2), 4)), lu(rng, 1e-3, 1e3))
+    loc, scale = (0.0, 1.0) if default else (float(np.round(rng.standard_normal() * lu(rng, 1e-2, 1e2), 4)),
+                                              lu(rng, 1e-8, 1e8) if corner(rng) else lu(rng, 1e-3, 1e3))
     op = ift.LaplaceOperator(dom) if default else ift.LaplaceOperator(dom, loc, scale)
     return dict(key="cl:LaplaceOperator", fn=lambda x: cl_apply(S, op, x), dist=stats.laplace(loc, scale),
                 mode="viacdf", abs_scale=abs(loc), default=default, jac=lambda x: cl_jac(S, op, x),
@@ -682,7 +697,7 @@ def b_cl_laplace(S, rng):
 
 BUILDERS = [b_re_normal, b_re_lognormal, b_re_uniform, b_re_laplace, b_re_invgamma, b_re_invgamma,
             b_cl_normal, b_cl_lognormal, b_cl_invgamma, b_cl_invgamma, b_cl_gamma, b_cl_loginvgamma,
-            b_cl_beta, b_cl_uniform, b_cl_laplace]
+            b_cl_beta, b_cl_uniform, b_cl_laplace, b_re_uniform_special, b_cl_lognormal, b_re_lognormal]
 
 
 # ----------------------------------------------------------------- moments / props
